@@ -186,6 +186,7 @@ func init() {
 		defer func() { sweeper.VerifCutoff = nil; sweeper.VerifYield = nil }()
 		before := lastTxnID(i.env)
 		_ = before
+		imgBefore, _ := imageOf(i)
 		err := sw.VerifSweepOnce(context.Background())
 		if err != nil {
 			if errors.Is(err, header.ErrTooShort) || errors.Is(err, header.ErrVersion) {
@@ -202,6 +203,27 @@ func init() {
 		quiet := true
 		for _, b := range batches {
 			quiet = quiet && b == "-"
+		}
+		if quiet && imgBefore != nil {
+			// soundness: whatever disappeared was a deletion marker strictly older than the cut-off
+			if img, err := imageOf(i); err == nil {
+				for _, n := range imgBefore.names {
+					now := map[string]bool{}
+					if d := img.dbis[n]; d != nil {
+						for _, p := range d.kvs {
+							now[string(p.k)] = true
+						}
+					}
+					for _, p := range imgBefore.dbis[n].kvs {
+						if now[string(p.k)] {
+							continue
+						}
+						if !(len(p.v) >= 24 && p.v[16] == 0 && p.v[17]&1 == 1 && binary.BigEndian.Uint64(p.v[0:8]) < uint64(cutoff)) {
+							return fmt.Sprintf("FAIL swept-an-entry-that-is-not-an-expired-marker dbi=%s key=%s value=%s cutoff=%d", n, hx(p.k), hx(p.v), uint64(cutoff))
+						}
+					}
+				}
+			}
 		}
 		if quiet {
 			if img, err := imageOf(i); err == nil {
